@@ -1,6 +1,7 @@
 import LdkModel.Driver.Util
 import LdkModel.Model.Onion
 import LdkModel.Generated.OnionFail
+import LdkModel.Generated.OnionPayloads
 /- C14 driver: the model functions of Model/Onion.lean instantiated with ChaCha20 / HMAC-SHA256
    (`Onion.ldk`) and LDK's key derivations.  Ops (hex for bytes, `-` = empty):
      build <L|std> <prng-seed> <assoc-data> <n> (<shared-secret> <payload>)*   → <hop_data> <hmac> | err
@@ -17,10 +18,16 @@ import LdkModel.Generated.OnionFail
          (`attr`) or without (`legacy`: a failing node that does not support attribution data) attribution data,
          relayed by hops k-1 … 0, decoded by the sender; answer = lengths / attribution data kept at each relay /
          wire lengths / SHA-256 digests of the final packet and attribution data / decoded hop, code, data digest, hold times
+     payload <variant> <nf> (<field> <hex|none>)* <nt> (<type> <hex>)*   → <serialized payload> inc=<0|1>
+         the GENERATED encoder of that payload kind (Generated/OnionPayloads.lean) on the serialized field values and the
+         user's custom TLVs; inc = would the encoder's debug TLV-order check pass
+     customnew <n> (<type> <hex>)*                                        → ok <sorted tlvs> | err   (RecipientCustomTlvs::new)
+     payloaddec <payload> <update_add blinding point 0|1> <fwd|recv|dummy|na> <show invreq 0|1>
+         the receiving side: record-level decode_tlv_stream_with_custom_tlv_decode! + the translated kind decision
    The payload TLV pretty-printer below is presentation only (the model treats payloads as opaque
    length-framed byte strings). -/
 namespace Ldk.Driver
-open Ldk Ldk.Onion
+open Ldk Ldk.Onion Ldk.OnionPayload
 
 def beNat (l : List UInt8) : Nat := l.foldl (fun acc x => acc * 256 + x.toNat) 0
 
@@ -94,6 +101,32 @@ def pairsOf : List String → List (String × String)
   | a :: b :: rest => (a, b) :: pairsOf rest
   | _ => []
 
+
+def showRecs (l : List Rec) : String :=
+  if l.isEmpty then "none" else ",".intercalate (l.map fun r => s!"{r.1}:{hex r.2}")
+
+def recsOf (ws : List String) : List Rec := (pairsOf ws).map fun (t, v) => (nat! t, unhex v)
+
+def lookupRec (l : List Rec) (t : Nat) : Option (List UInt8) := (l.find? (fun r => r.1 == t)).map (·.2)
+
+def showNum : Option (List UInt8) → String
+  | none => "none"
+  | some v => toString (OnionPayload.beNat v)
+
+/-- canonical text of what the receiving hop learns from a decoded payload -/
+def showDecoded (kind : InKind) (typed custom : List Rec) (showInv : Bool) : String :=
+  let g := lookupRec typed
+  match kind with
+  | .forward => s!"kind=forward amt={showNum (g 2)} cltv={showNum (g 4)} scid={showNum (g 6)}"
+  | .receive =>
+    s!"kind=receive amt={showNum (g 2)} cltv={showNum (g 4)} secret={optHex ((g 8).map (·.take 32))} total={showNum ((g 8).map (·.drop 32))} meta={optHex (g 16)} keysend={optHex (g 5482373484)} custom={showRecs custom}"
+  | .blindedForward => "kind=blindedForward"
+  | .dummy => "kind=dummy"
+  | .trampolineEntrypoint => "kind=trampolineEntrypoint"
+  | .blindedReceive =>
+    let inv := if showInv then optHex ((g 77777).map Prim.sha256) else "hidden"
+    s!"kind=blindedReceive amt={showNum (g 2)} cltv={showNum (g 4)} total={showNum (g 18)} keysend={optHex (g 5482373484)} invreq={inv} custom={showRecs custom}"
+
 def c14 : Drv where
   σ := Unit
   init := ()
@@ -159,6 +192,38 @@ def c14 : Drv where
       | some a =>
         let holds := decodeFulfillAttr ldk keys a
         ((), "holds=" ++ (if holds.isEmpty then "none" else ",".intercalate (holds.map toString)))
+    | "payload" :: variant :: nf :: rest =>
+      let nf := nat! nf
+      let fields := pairsOf (rest.take (2 * nf))
+      match rest.drop (2 * nf) with
+      | nt :: trest =>
+        if trest.length ≠ 2 * nat! nt then ((), "bad-op") else
+        let f (name : String) : Option (List UInt8) :=
+          match fields.lookup name with
+          | some "none" => none
+          | some h => some (unhex h)
+          | none => none
+        match OutPayload.ofFields variant f (recsOf trest) with
+        | none => ((), "bad-op")
+        | some p => ((), s!"{hex (encodePayload p.records)} inc={if strictIncB p.out.checkedTypes then 1 else 0}")
+      | _ => ((), "bad-op")
+    | "customnew" :: n :: rest =>
+      if rest.length ≠ 2 * nat! n then ((), "bad-op") else
+      match recipientCustomTlvsNew (recsOf rest) with
+      | none => ((), "err")
+      | some c => ((), s!"ok {showRecs c}")
+    | ["payloaddec", payload, ubp, inner, showInv] =>
+      match parsePayload (unhex payload) with
+      | none => ((), "err framing")
+      | some recs =>
+        match decodeRecords inboundKnownTypes customTlvMin recs with
+        | .error .invalidValue => ((), "err InvalidValue")
+        | .error .unknownRequired => ((), "err UnknownRequiredFeature")
+        | .ok (typed, custom) =>
+          let inn : BlindedInner := if inner == "fwd" then .forward else if inner == "dummy" then .dummy else .receive
+          match classifyInbound (presenceOf typed) (ubp == "1") inn with
+          | none => ((), "err InvalidValue")
+          | some kind => ((), showDecoded kind typed custom (showInv == "1"))
     | "faildecode" :: n :: rest =>
       if rest.length ≠ nat! n + 1 then ((), "bad-op") else
       let keys := (rest.take (nat! n)).map fun ss => failKeysOfSecret (unhex ss)
